@@ -174,7 +174,7 @@ def enumerated(prop, tier, seed):
 def plan(prop, tier):
     if tier == 'quick':
         return {'runs': 1400, 'wall_cap': 900}
-    return {'runs': 20000, 'wall_cap': 6 * 3600}
+    return {'runs': 12000, 'wall_cap': 6 * 3600, 'opt_runs': 1500}
 
 
 # ---------------------------------------------------------------------------
